@@ -30,7 +30,8 @@ Record Inv (w : world) (canon : cid -> option meta) (x : ctx) : Prop := mkInv {
   inv_known : forall c m, cache_get (cache x) c = Some m ->
                 exists cd, find_class w c = Some cd /\ c_ok cd = true;
   inv_seen : seen x <= w_modules w;
-  inv_index : seen x = w_modules w -> xsi x = ideal_index w }.
+  inv_index : seen x = w_modules w -> xsi x = ideal_index w;
+  inv_unsup : forall c, In c (unsup x) -> exists cd, find_class w c = Some cd /\ c_ok cd = false }.
 
 Lemma cache_get_app l c m c' :
   cache_get (l ++ [(c, m)]) c' =
@@ -91,6 +92,7 @@ Proof.
            ++ intros Em; inversion Em; subst. eapply inv_known; eauto.
            ++ destruct (N.eqb_spec c c'); [|discriminate]. intros _. subst c'.
               destruct (ideal_build_some _ _ _ _ Hi) as [cd [? [? ?]]]. eauto.
+        -- apply I.
         -- apply I.
         -- apply I.
       * intros c' m' G'. cbn. rewrite cache_get_app, G'. reflexivity.
@@ -187,45 +189,36 @@ Proof.
 Qed.
 
 (* ---------------------------------------------------------- local_names_match *)
-Lemma lnm_sound w canon x names c x' b e t :
-  Inv w canon x -> ctx_local_names_match w x names c = (x', b, e, t) -> canon_ok canon t -> quiet t = true ->
-  e = false /\ b = ideal_names_match w names c /\ Inv w canon x' /\ grows x x' /\ xsi x' = xsi x
-  /\ seen x' = seen x /\ rec x' = rec x
+Lemma memN_in c l : memN c l = true <-> In c l.
+Proof.
+  unfold memN. rewrite existsb_exists. split.
+  - intros [y [Hin Hy]]. apply N.eqb_eq in Hy. subst. exact Hin.
+  - intros Hin. exists c. split; [exact Hin|apply N.eqb_refl].
+Qed.
+
+Lemma lnm_sound w canon x names c x' b t :
+  Inv w canon x -> ctx_local_names_match w x names c = (x', b, t) -> canon_ok canon t ->
+  b = ideal_names_match w names c /\ Inv w canon x' /\ grows x x' /\ xsi x' = xsi x
+  /\ seen x' = seen x /\ rec x' = rec x /\ quiet t = true
   /\ (b = true -> cache_get (cache x') c = ideal_build w c None).
 Proof.
-  intros I E Hc Q. unfold ctx_local_names_match in E. unfold ideal_names_match.
-  destruct (ctx_build w x c None) as [[x1 om] t1] eqn:E1.
-  assert (Hc1 : canon_ok canon t1).
-  { destruct om; [inversion E; subst; exact Hc|].
-    destruct (find_class w c); [|inversion E; subst; exact Hc].
-    destruct (truthy (target_qname c0)); [|inversion E; subst; exact Hc].
-    destruct (index_get (xsi x1) s); [|inversion E; subst; exact Hc].
-    destruct (memN c l); inversion E; subst; apply canon_ok_app in Hc; tauto. }
-  destruct (ctx_build_sound _ _ _ _ _ _ _ _ I E1 Hc1) as [Hm [I1 [X1 [S1 [R1 [G1 [Cg Q1]]]]]]].
-  destruct om as [m|].
-  - inversion E; subst; clear E. rewrite <- Hm. csplit; auto.
-  - rewrite <- Hm.
-    assert (Hdone : forall tt, (x1, false, false, t1) = (x', b, e, tt) ->
-              e = false /\ b = false /\ Inv w canon x' /\ grows x x' /\ xsi x' = xsi x
-              /\ seen x' = seen x /\ rec x' = rec x /\ (b = true -> cache_get (cache x') c = None)).
-    { intros tt Et. inversion Et; subst. csplit; auto. discriminate. }
-    destruct (find_class w c) as [cd|]; [|eapply Hdone; exact E].
-    destruct (truthy (target_qname cd)) as [q|]; [|eapply Hdone; exact E].
-    destruct (index_get (xsi x1) q) as [l|]; [|eapply Hdone; exact E].
-    destruct (memN c l); inversion E; subst; rewrite quiet_app in Q; cbn in Q;
-      rewrite andb_false_r in Q; discriminate.
-Qed.
-
-Lemma nth_error_skipn {A} (l : list A) i a : nth_error l i = Some a -> skipn i l = a :: skipn (S i) l.
-Proof.
-  revert i; induction l as [|x l IH]; intros [|i] H; cbn in *; try discriminate.
-  - inversion H; reflexivity.
-  - rewrite (IH _ H). destruct l; reflexivity.
-Qed.
-
-Lemma nth_error_none_skipn {A} (l : list A) i : nth_error l i = None -> skipn i l = [].
-Proof.
-  revert i; induction l as [|x l IH]; intros [|i] H; cbn in *; try discriminate; auto.
+  intros I E Hc. unfold ctx_local_names_match in E. unfold ideal_names_match.
+  destruct (memN c (unsup x)) eqn:Hu.
+  - inversion E; subst. apply memN_in in Hu. destruct (inv_unsup _ _ _ I _ Hu) as [cd [Hf Hok]].
+    unfold ideal_build. rewrite Hf, Hok. csplit; auto using grows_refl. discriminate.
+  - destruct (ctx_build w x c None) as [[x1 om] t1] eqn:E1.
+    assert (Hc1 : canon_ok canon t1).
+    { destruct om; [inversion E; subst; exact Hc|]. destruct (find_class w c); inversion E; subst; exact Hc. }
+    destruct (ctx_build_sound _ _ _ _ _ _ _ _ I E1 Hc1) as [Hm [I1 [X1 [S1 [R1 [G1 [Cg Q1]]]]]]].
+    destruct om as [m|].
+    + inversion E; subst; clear E. rewrite <- Hm. csplit; auto.
+    + rewrite <- Hm. destruct (find_class w c) as [cd|] eqn:Hf; inversion E; subst; clear E.
+      * csplit; auto; try discriminate.
+        constructor; cbn; try apply I1. intros c' Hin. apply in_app_or in Hin as [Hin|[<-|[]]].
+        -- apply (inv_unsup _ _ _ I1). exact Hin.
+        -- exists cd. split; [exact Hf|]. symmetry in Hm. unfold ideal_build in Hm. rewrite Hf in Hm.
+           destruct (c_ok cd); [discriminate|reflexivity].
+      * csplit; auto. discriminate.
 Qed.
 
 Definition cached_ideal (w : world) (x : ctx) (cs : list cid) : Prop :=
@@ -234,162 +227,44 @@ Definition cached_ideal (w : world) (x : ctx) (cs : list cid) : Prop :=
 Lemma cached_ideal_grows w x x' cs : grows x x' -> cached_ideal w x cs -> cached_ideal w x' cs.
 Proof. intros G H c Hin. destruct (H c Hin) as [m [? ?]]. exists m. auto. Qed.
 
-Lemma scan_types_sound fuel : forall w canon x names q i l x' cs e t,
-  Inv w canon x -> index_get (xsi x) q = Some l ->
-  scan_types fuel w x names q i = (x', cs, e, t) -> canon_ok canon t -> quiet t = true ->
-  e = None /\ (List.length l <= i + fuel -> cs = filter (ideal_names_match w names) (skipn i l))%nat
+Lemma scan_types_sound l : forall w canon x names x' cs t,
+  Inv w canon x -> scan_types w x names l = (x', cs, t) -> canon_ok canon t ->
+  cs = filter (ideal_names_match w names) l
   /\ Inv w canon x' /\ grows x x' /\ xsi x' = xsi x /\ seen x' = seen x /\ rec x' = rec x
-  /\ cached_ideal w x' cs.
+  /\ quiet t = true /\ cached_ideal w x' cs.
 Proof.
-  induction fuel as [|f IH]; intros w canon x names q i l x' cs e t I Hl E Hc Q; cbn in E.
-  - inversion E; subst. csplit; auto using grows_refl.
-    + intros Hle. rewrite skipn_all2 by lia. reflexivity.
-    + intros c [].
-  - rewrite Hl in E. destruct (nth_error l i) as [c|] eqn:En.
-    + destruct (ctx_local_names_match w x names c) as [[[x1 ok] err] t1] eqn:E1.
-      assert (Hc1 : canon_ok canon t1).
-      { destruct err; [inversion E; subst; exact Hc|].
-        destruct (scan_types f w x1 names q (S i)) as [[[x2 cs2] e2] t2]. inversion E; subst.
-        apply canon_ok_app in Hc. tauto. }
-      assert (Q1 : quiet t1 = true).
-      { destruct err; [inversion E; subst; exact Q|].
-        destruct (scan_types f w x1 names q (S i)) as [[[x2 cs2] e2] t2]. inversion E; subst.
-        rewrite quiet_app in Q. apply andb_true_iff in Q. tauto. }
-      destruct (lnm_sound _ _ _ _ _ _ _ _ _ I E1 Hc1 Q1) as [-> [Hok [I1 [G1 [X1 [S1 [R1 C1]]]]]]].
-      destruct (scan_types f w x1 names q (S i)) as [[[x2 cs2] e2] t2] eqn:E2.
-      inversion E; subst; clear E.
-      apply canon_ok_app in Hc as [_ Hc2]. rewrite quiet_app in Q. apply andb_true_iff in Q as [_ Q2].
-      assert (Hl1 : index_get (xsi x1) q = Some l) by (rewrite X1; exact Hl).
-      destruct (IH _ _ _ _ _ _ _ _ _ _ _ I1 Hl1 E2 Hc2 Q2) as [-> [Hcs [I2 [G2 [X2 [S2 [R2 C2]]]]]]].
-      csplit; auto; try congruence.
-      * intros Hle. rewrite (nth_error_skipn _ _ _ En). cbn [filter].
-        rewrite <- Hcs by lia. reflexivity.
-      * eauto using grows_trans.
-      * intros c' Hin. destruct (ideal_names_match w names c) eqn:Ei.
-        -- destruct Hin as [<-|Hin]; [|apply C2; exact Hin].
-           specialize (C1 eq_refl). unfold ideal_names_match in Ei.
-           destruct (ideal_build w c None) as [m|] eqn:Eb; [|discriminate].
-           exists m. split; auto.
-        -- apply C2; exact Hin.
-    + inversion E; subst. csplit; auto using grows_refl.
-      * intros _. rewrite (nth_error_none_skipn _ _ En). reflexivity.
-      * intros c [].
-Qed.
-
-Lemma scan_index_sound ents : forall w canon x names x' cs e t,
-  Inv w canon x -> (forall en, In en ents -> index_get (xsi x) (fst en) = Some (snd en)) ->
-  scan_index w x names (map (fun en => (fst en, List.length (snd en))) ents) = (x', cs, e, t) ->
-  canon_ok canon t -> quiet t = true ->
-  e = None /\ cs = flat_map (fun en => filter (ideal_names_match w names) (snd en)) ents
-  /\ Inv w canon x' /\ grows x x' /\ xsi x' = xsi x /\ seen x' = seen x /\ rec x' = rec x
-  /\ cached_ideal w x' cs.
-Proof.
-  induction ents as [|[q l] ents IH]; intros w canon x names x' cs e t I H E Hc Q.
-  - cbn in E. inversion E; subst. csplit; auto using grows_refl. intros c [].
-  - cbn [map fst snd scan_index] in E.
-    destruct (scan_types (S (List.length l)) w x names q 0) as [[[x1 cs1] e1] t1] eqn:E1.
-    assert (Hq : index_get (xsi x) q = Some l) by (apply (H (q, l)); left; reflexivity).
-    assert (Hc1 : canon_ok canon t1).
-    { destruct e1; [inversion E; subst; exact Hc|].
-      destruct (scan_index w x1 names _) as [[[x2 cs2] e2] t2]. inversion E; subst.
-      apply canon_ok_app in Hc; tauto. }
-    assert (Q1 : quiet t1 = true).
-    { destruct e1; [inversion E; subst; exact Q|].
-      destruct (scan_index w x1 names _) as [[[x2 cs2] e2] t2]. inversion E; subst.
-      rewrite quiet_app in Q. apply andb_true_iff in Q; tauto. }
-    destruct (scan_types_sound _ _ _ _ _ _ _ _ _ _ _ _ I Hq E1 Hc1 Q1) as [-> [Hcs [I1 [G1 [X1 [S1 [R1 C1]]]]]]].
-    destruct (scan_index w x1 names _) as [[[x2 cs2] e2] t2] eqn:E2.
-    inversion E; subst; clear E.
-    apply canon_ok_app in Hc as [_ Hc2]. rewrite quiet_app in Q. apply andb_true_iff in Q as [_ Q2].
-    assert (H1 : forall en, In en ents -> index_get (xsi x1) (fst en) = Some (snd en)).
-    { intros en Hin. rewrite X1. apply H. right. exact Hin. }
-    destruct (IH _ _ _ _ _ _ _ _ I1 H1 E2 Hc2 Q2) as [-> [-> [I2 [G2 [X2 [S2 [R2 C2]]]]]]].
+  induction l as [|c l IH]; intros w canon x names x' cs t I E Hc; cbn [scan_types] in E.
+  - inversion E; subst. csplit; auto using grows_refl. intros c [].
+  - destruct (ctx_local_names_match w x names c) as [[x1 ok] t1] eqn:E1.
+    destruct (scan_types w x1 names l) as [[x2 cs2] t2] eqn:E2. inversion E; subst; clear E.
+    apply canon_ok_app in Hc as [Hc1 Hc2].
+    destruct (lnm_sound _ _ _ _ _ _ _ _ I E1 Hc1) as [Hok [I1 [G1 [X1 [S1 [R1 [Q1 C1]]]]]]].
+    destruct (IH _ _ _ _ _ _ _ I1 E2 Hc2) as [-> [I2 [G2 [X2 [S2 [R2 [Q2 C2]]]]]]].
     csplit; auto; try congruence.
-    + cbn [flat_map snd]. rewrite Hcs by lia. reflexivity.
+    + cbn [filter]. rewrite <- Hok. reflexivity.
     + eauto using grows_trans.
-    + intros c Hin. apply in_app_or in Hin as [Hin|Hin].
-      * eapply cached_ideal_grows; eauto.
+    + rewrite quiet_app, Q1, Q2. reflexivity.
+    + intros c' Hin. destruct ok.
+      * destruct Hin as [<-|Hin]; [|apply C2; exact Hin].
+        specialize (C1 eq_refl). symmetry in Hok. unfold ideal_names_match in Hok.
+        destruct (ideal_build w c None) as [m|] eqn:Eb; [|discriminate].
+        exists m. split; auto.
       * apply C2; exact Hin.
 Qed.
 
-(* keys of the index are unique *)
-Lemma index_add_keys ix q c :
-  map fst (index_add ix q c) = if existsb (str_eqb q) (map fst ix) then map fst ix else map fst ix ++ [q].
+Lemma ctx_find_by_fields_sound w canon x names x' oc t :
+  Inv w canon x -> ctx_find_by_fields w x names = (x', oc, t) -> canon_ok canon t ->
+  oc = ideal_by_fields w names /\ Inv w canon x' /\ rec x' = rec x /\ quiet t = true.
 Proof.
-  induction ix as [|[k l] ix IH]; cbn; [reflexivity|].
-  destruct (str_eqb_spec k q) as [->|Hn]; cbn.
-  - rewrite str_eqb_refl. reflexivity.
-  - destruct (str_eqb_spec q k) as [->|_]; [congruence|]. cbn. rewrite IH.
-    destruct (existsb (str_eqb q) (map fst ix)); reflexivity.
-Qed.
-
-Lemma existsb_str_in q l : existsb (str_eqb q) l = true <-> In q l.
-Proof.
-  rewrite existsb_exists. split.
-  - intros [y [Hin Hy]]. apply str_eqb_eq in Hy. subst. exact Hin.
-  - intros Hin. exists q. split; auto using str_eqb_refl.
-Qed.
-
-Lemma nodup_snoc {A} (l : list A) q : NoDup l -> ~ In q l -> NoDup (l ++ [q]).
-Proof.
-  induction l as [|x l IH]; intros H Hn; cbn.
-  - constructor; [intros []|constructor].
-  - inversion H; subst. constructor.
-    + intros Hin. apply in_app_or in Hin as [Hin|[<-|[]]]; [contradiction|]. apply Hn. left. reflexivity.
-    + apply IH; [assumption|]. intros Hin. apply Hn. right. exact Hin.
-Qed.
-
-Lemma index_add_nodup ix q c : NoDup (map fst ix) -> NoDup (map fst (index_add ix q c)).
-Proof.
-  intros H. rewrite index_add_keys. destruct (existsb (str_eqb q) (map fst ix)) eqn:E; [exact H|].
-  apply nodup_snoc; [exact H|]. intros Hin. apply existsb_str_in in Hin. congruence.
-Qed.
-
-Lemma ideal_index_nodup w : NoDup (map fst (ideal_index w)).
-Proof.
-  unfold ideal_index.
-  assert (G : forall l ix, NoDup (map fst ix) ->
-            NoDup (map fst (fold_left (fun ix cd => match truthy (target_qname cd) with
-                                                  | Some q => index_add ix q (c_id cd)
-                                                  | None => ix end) l ix))).
-  { induction l as [|cd l IH]; intros ix H; cbn; [exact H|].
-    apply IH. destruct (truthy (target_qname cd)); [apply index_add_nodup|]; exact H. }
-  apply G. constructor.
-Qed.
-
-Lemma index_get_in ix : NoDup (map fst ix) -> forall en, In en ix -> index_get ix (fst en) = Some (snd en).
-Proof.
-  induction ix as [|[k l] ix IH]; intros H en Hin; [destruct Hin|].
-  cbn in H. inversion H; subst. cbn. destruct Hin as [<-|Hin].
-  - cbn. rewrite str_eqb_refl. reflexivity.
-  - destruct (str_eqb_spec k (fst en)) as [->|_].
-    + exfalso. apply H2. apply in_map. exact Hin.
-    + apply IH; assumption.
-Qed.
-
-Lemma filter_flat_map {A B} (p : B -> bool) (f : A -> list B) l :
-  filter p (flat_map f l) = flat_map (fun a => filter p (f a)) l.
-Proof.
-  induction l as [|a l IH]; cbn; [reflexivity|]. rewrite filter_app, IH. reflexivity.
-Qed.
-
-Lemma ctx_find_by_fields_sound w canon x names x' oc e t :
-  Inv w canon x -> ctx_find_by_fields w x names = (x', oc, e, t) -> canon_ok canon t -> quiet t = true ->
-  e = None /\ oc = ideal_by_fields w names /\ Inv w canon x' /\ rec x' = rec x.
-Proof.
-  intros I E Hc Q. unfold ctx_find_by_fields in E.
+  intros I E Hc. unfold ctx_find_by_fields in E.
   destruct (ctx_build_xsi_sound w canon x I) as [I0 [X0 [S0 [C0 R0]]]].
   set (x0 := ctx_build_xsi w x) in *.
-  destruct (scan_index w x0 names _) as [[[x1 cs] e1] t1] eqn:E1.
-  assert (Ht : exists te, t = t1 ++ [te]) by (destruct e1; inversion E; subst; eauto).
-  destruct Ht as [te Ht]. rewrite Ht in Hc, Q.
-  apply canon_ok_app in Hc as [Hc1 _]. rewrite quiet_app in Q. apply andb_true_iff in Q as [Q1 _].
-  assert (H0 : forall en, In en (xsi x0) -> index_get (xsi x0) (fst en) = Some (snd en)).
-  { rewrite X0. apply index_get_in. apply ideal_index_nodup. }
-  destruct (scan_index_sound _ _ _ _ _ _ _ _ _ I0 H0 E1 Hc1 Q1) as [-> [Hcs [I1 [G1 [X1 [S1 [R1 C1]]]]]]].
-  inversion E; subst oc x' e; clear E.
-  csplit; auto; [|congruence].
-  unfold ideal_by_fields, ideal_candidates. rewrite filter_flat_map, <- X0, <- Hcs.
+  destruct (scan_types w x0 names _) as [[x1 cs] t1] eqn:E1.
+  inversion E; subst oc x' t; clear E.
+  apply canon_ok_app in Hc as [Hc1 _].
+  destruct (scan_types_sound _ _ _ _ _ _ _ _ I0 E1 Hc1) as [Hcs [I1 [G1 [X1 [S1 [R1 [Q1 C1]]]]]]].
+  csplit; auto; [|congruence|rewrite quiet_app, Q1; reflexivity].
+  unfold ideal_by_fields, ideal_candidates. rewrite <- X0, <- Hcs.
   f_equal. apply map_ext_in. intros c Hin. destruct (C1 c Hin) as [m [Hb Hg]]. rewrite Hb, Hg. reflexivity.
 Qed.
 
